@@ -1,6 +1,9 @@
 (* C02 — Time-range queries return exactly the events whose timestamp is in range.
    Property theorems only. Model: model/TmTree.v (sparse index), model/CIndex.v (per-chunk hull and index),
-   model/Selector.v (write path, range read, histories, the variants code_variant / fixed_variant). *)
+   model/Selector.v (write path, range read, histories). The theorems are about `impl_variant`, the variant
+   of the model the correspondence check compares the implementation with (= fixed_variant: the repairs
+   C02-lower-bound, C02-zero-unset and C02-open-lower-bound are in /repo); the variants with a flag
+   switched off describe the code before the corresponding repair. *)
 From LR Require Import lib.Base model.TmTree model.TmTreeML model.CIndex model.Selector.
 From LR Require Import proofs.TmTreeP proofs.TmTreeMLP proofs.CIndexP proofs.SelectorP proofs.SelectorInvP proofs.SelectorRunP.
 Open Scope Z_scope.
@@ -40,64 +43,76 @@ Theorem C02_complete_of_invariant : forall v st o1 o2,
 Proof. exact complete_of_inv. Qed.
 Print Assumptions C02_complete_of_invariant.
 
-(* the code's lower-bound call needs the strict invariant (strictly smaller timestamps before a record)
-   and an explicit lower bound *)
-Theorem C02_complete_of_strict_invariant_partial : forall v st t1 o2,
+(* the lower-bound call as it was before the repair (the index asked for t1 itself) needed the strict
+   invariant (strictly smaller timestamps before a record) and an explicit lower bound; kept because it
+   says exactly which inputs the old call was right on: no equal-timestamp run across an index record *)
+Theorem C02_old_lower_bound_complete_of_strict_invariant : forall v st t1 o2,
   fix_lb v = false -> data_int64 st -> int64_ok t1 -> (forall t, o2 = Some t -> int64_ok t) ->
   synced_inv chunk_inv_strict (ci_sync (p_ci st) (p_chunks st)) (p_chunks st) ->
   complete_at v st (Some t1) o2.
 Proof. exact complete_of_inv_strict. Qed.
-Print Assumptions C02_complete_of_strict_invariant_partial.
+Print Assumptions C02_old_lower_bound_complete_of_strict_invariant.
 
-(* ---- the full statement is FALSE of the code as it is; six witnesses, each replayed on the
-   implementation by the harness corpus (harness/c02/e2e.go corpus()) ---- *)
-Theorem C02_complete_refuted : ~ C02_complete_statement code_variant.
+(* ---- what IS proved of the whole system, for the code as it is: for every history whose timestamps are
+   non-decreasing in write order, whose batches follow the journal's discipline (a batch continues the last
+   chunk and/or opens new ones), in which no write follows an index loss before a sync or read, and for
+   every range (either bound may be omitted): RANGE = filter of the full scan.  Batch sizes, chunk sizes,
+   equal-timestamp runs, zeros, negative values, int64 extremes, failed TryLocks, sparse skips, big gaps,
+   rebuilds, syncs and index losses are all arbitrary. ---- *)
+Definition C02_complete_partial_statement (v : variant) : Prop :=
+  forall hist o1 o2, Forall op_ok hist -> op_ok (HRead o1 o2) ->
+    hist_sorted hist -> hist_disciplined hist -> hist_small hist -> no_write_after_drop hist ->
+    complete_at v (run v hist) o1 o2.
+Theorem C02_complete_partial : C02_complete_partial_statement impl_variant.
+Proof. exact complete_impl. Qed.
+Print Assumptions C02_complete_partial.
+
+(* ---- what the three repairs bought: for EVERY variant that lacks one of them the same statement, with all
+   its hypotheses, is false. The witnesses are the former known findings; the harness corpus
+   (harness/c02/e2e.go corpus()) replays each of them on the implementation first on every run and now
+   expects the complete answer ---- *)
+(* (a) before C02-lower-bound: an equal-timestamp run across a sparse-index point, t1 equal to it
+       (249 x 10, 251 x 20 in one chunk: RANGE ["20":"20"] delivered 1 of 251) *)
+Theorem C02_complete_without_lower_bound_repair_refuted : forall v, fix_lb v = false -> ~ C02_complete_partial_statement v.
 Proof. exact refuted_equal_run. Qed.
-Print Assumptions C02_complete_refuted.
+Print Assumptions C02_complete_without_lower_bound_repair_refuted.
 
-(* (b) a batch whose first timestamp is 0: iwrapper takes 0 for "unset" *)
-Theorem C02_zero_first_refuted :
-  exists hist o1 o2, Forall op_ok hist /\ op_ok (HRead o1 o2) /\ ~ complete_at code_variant (run code_variant hist) o1 o2.
+(* (b) before C02-zero-unset: a batch whose first timestamp is 0 (0,5,7 got the hull [5,7]) *)
+Theorem C02_complete_without_zero_repair_refuted : forall v, fix_zero v = false -> ~ C02_complete_partial_statement v.
 Proof. exact refuted_zero_first. Qed.
-Print Assumptions C02_zero_first_refuted.
+Print Assumptions C02_complete_without_zero_repair_refuted.
 
-(* (d) an omitted lower bound is 0, not "unbounded" *)
-Theorem C02_open_lower_refuted :
-  exists hist o2, Forall op_ok hist /\ op_ok (HRead None o2) /\ ~ complete_at code_variant (run code_variant hist) None o2.
-Proof. exact refuted_open_lower. Qed.
-Print Assumptions C02_open_lower_refuted.
-
-(* (e) a rebuilt index over negative timestamps: every segment max starts at 0 *)
-Theorem C02_rebuild_negative_refuted :
-  exists hist o1 o2, Forall op_ok hist /\ op_ok (HRead o1 o2) /\ ~ complete_at code_variant (run code_variant hist) o1 o2.
+(* (e) before C02-zero-unset, second place: a rebuilt index over negative timestamps ended in (0,pos);
+       the witness has no timestamp 0 and no sign change, so it does not touch iwrapper's side *)
+Theorem C02_rebuild_negative_without_zero_repair_refuted : forall v, fix_zero v = false -> ~ C02_complete_partial_statement v.
 Proof. exact refuted_rebuild_negative. Qed.
-Print Assumptions C02_rebuild_negative_refuted.
+Print Assumptions C02_rebuild_negative_without_zero_repair_refuted.
 
-(* (c) even with all three repairs: timestamps that are not monotone in stored order *)
-Theorem C02_nonmonotone_refuted : ~ C02_complete_statement fixed_variant.
+(* (d) before C02-open-lower-bound: an omitted lower bound was 0, not "unbounded" (-5,-3,4: [:"10"] delivered only 4) *)
+Theorem C02_complete_without_open_lower_repair_refuted : forall v, fix_open v = false -> ~ C02_complete_partial_statement v.
+Proof. exact refuted_open_lower. Qed.
+Print Assumptions C02_complete_without_open_lower_repair_refuted.
+
+(* ---- the two hypotheses of C02_complete_partial that are about the data and the schedule are needed by
+   the code as it is: each has a witness that satisfies all the others (recorded findings) ---- *)
+(* (c) timestamps that are not monotone in stored order (250 x 100, 500, 250 x 200: RANGE ["400":"600"] is empty) *)
+Theorem C02_nonmonotone_refuted :
+  exists hist o1 o2, Forall op_ok hist /\ op_ok (HRead o1 o2) /\ hist_disciplined hist /\ hist_small hist /\ no_write_after_drop hist /\
+    ~ complete_at impl_variant (run impl_variant hist) o1 o2.
 Proof. exact refuted_nonmonotone. Qed.
 Print Assumptions C02_nonmonotone_refuted.
 
-(* (f) even with all three repairs and monotone timestamps: index lost, then a write before any sync,
-   read before the rebuilder has run *)
+(* (f) monotone timestamps: index lost, then a write before any sync, read before the rebuilder has run *)
 Theorem C02_write_after_index_loss_refuted :
-  exists hist o1 o2, Forall op_ok hist /\ op_ok (HRead o1 o2) /\ hist_sorted hist /\
-    ~ complete_at fixed_variant (run fixed_variant hist) o1 o2.
+  exists hist o1 o2, Forall op_ok hist /\ op_ok (HRead o1 o2) /\ hist_sorted hist /\ hist_disciplined hist /\ hist_small hist /\
+    ~ complete_at impl_variant (run impl_variant hist) o1 o2.
 Proof. exact refuted_drop_write. Qed.
 Print Assumptions C02_write_after_index_loss_refuted.
 
-(* ---- what IS proved of the whole system (all three repairs in): for every history whose timestamps are
-   non-decreasing in write order, whose batches follow the journal's discipline (a batch continues the last
-   chunk and/or opens new ones), in which no write follows an index loss before a sync or read, and for
-   every range: RANGE = filter of the full scan.  Batch sizes, chunk sizes, equal-timestamp runs, zeros,
-   negative values, int64 extremes, failed TryLocks, sparse skips, big gaps, rebuilds, syncs and index
-   losses are all arbitrary. ---- *)
-Theorem C02_complete_partial : forall hist o1 o2,
-  Forall op_ok hist -> op_ok (HRead o1 o2) ->
-  hist_sorted hist -> hist_disciplined hist -> hist_small hist -> no_write_after_drop hist ->
-  complete_at fixed_variant (run fixed_variant hist) o1 o2.
-Proof. exact complete_fixed. Qed.
-Print Assumptions C02_complete_partial.
+(* hence the statement without hypotheses is (still) false of the code as it is *)
+Theorem C02_complete_refuted : ~ C02_complete_statement impl_variant.
+Proof. exact refuted_full. Qed.
+Print Assumptions C02_complete_refuted.
 
 (* ---- the multi-level block tree (model/TmTreeML.v, compared with real ckindex trees of up to 3 levels on every
    run) has the three properties of the flat record list that the proofs above use: on a well-formed tree of ANY
@@ -121,5 +136,5 @@ Print Assumptions C02_tree_add_in_order.
    with timestamp 0, equal-timestamp runs across sparse-index points, a failed TryLock, a batch split over a
    chunk roll-over, an index loss followed by a sync, a read and a rebuild, then a further indexed write *)
 Example C02_nonvacuous : hist_sorted nonvac_hist /\ hist_disciplined nonvac_hist /\ no_write_after_drop nonvac_hist /\
-  length (fst (range_read fixed_variant (run fixed_variant nonvac_hist) (Some 0) (Some 20))) = 1006%nat.
+  length (fst (range_read impl_variant (run impl_variant nonvac_hist) (Some 0) (Some 20))) = 1006%nat.
 Proof. exact nonvac_ok. Qed.
